@@ -176,3 +176,46 @@ def const_value(cx, t, env=None, depth=0):
         if name in ('float', 'int', 'abs') and len(args) == 1:
             return {'float': float, 'int': int, 'abs': abs}[name](args[0])
     raise ValueError('not a constant: %s' % (t[:2],))
+
+
+# -------------------------------------------------------------------- formulas compared semantically
+def role_leaf(t, role, default=None):
+    """first sub-term of t that carries the audio-parameter role (attribute, parameter or getter call)"""
+    from .symex import ROLE_OF
+    for x in walk(t):
+        if x[0] == 'attr' and ROLE_OF.get(x[2]) == role:
+            return x
+        if x[0] == 'p' and ROLE_OF.get(x[1]) == role:
+            return x
+        if x[0] == 'call' and x[1][0] == 'attr' and not x[2] and ROLE_OF.get(x[1][2]) == role:
+            return x
+    return default
+
+
+def mul(*ts):
+    out = ts[0]
+    for t in ts[1:]:
+        out = ('bin', '*', out, t)
+    return out
+
+
+def fcall(name, *args):
+    return ('call', ('b', name), tuple(args), ())
+
+
+def formula(rep, rule, actual, expected, where, construct, what, pattern_ok=None, sample=None):
+    """obligation `actual` == `expected` as arithmetic formulas over the same leaves: decided by the structural pattern when it
+    matches, else by randomised identity testing of the two terms (sa/termeval.py); not evaluable -> INCONCLUSIVE"""
+    from .termeval import equivalent
+    if actual is None:
+        rep.ob(rule, False, where, construct, '%s is missing' % what)
+        return False
+    if pattern_ok:
+        rep.ob(rule, True, where, sample=sample)
+        return True
+    eq = equivalent(actual, expected)
+    if eq is None:
+        rep.unknown('%s: %s = %s could not be compared with %s' % (construct, what, show(actual)[:80], show(expected)[:80]))
+        return None
+    rep.ob(rule, eq, where, construct, '%s is %s, expected a formula equal to %s' % (what, show(actual)[:140], show(expected)[:100]), sample=sample)
+    return eq
